@@ -176,7 +176,7 @@ func Pool() []Block {
 		})},
 		// one macro with a description of several lines, pasted by two methods
 		{Name: "M_desc", Kind: "macro", Defines: []string{"macro:@md"}, Nodes: one(func() *Node {
-			return N("MACRO", "@md").WithParen().WithKids(N("Description").WithBody("Line one\n  line two\nline three\nline four"), N("404", "any"))
+			return N("MACRO", "@md").WithParen().WithKids(N("404", "any"), N("Description").WithBody("Line one\n  line two\nline three\nline four\nline five\nline six, the last."))
 		})},
 		{Name: "H_d12", Kind: "http", Defines: []string{"path:/d1", "path:/d2"}, Needs: []string{"macro:@md"}, Nodes: func() []*Node {
 			return []*Node{
